@@ -523,6 +523,130 @@ def run_docs(ck, hcmd, dcmd, tagged, label, pool, chunk=1500):
                               "class": j[0], "monitor": j[1], "document": repr(small)[:300], "impl": [impl[:600]]})
 
 
+# ---------------------------------------------------------------- context reuse
+OPEN_FAILS = [b"[1, 2", b"[1, x]", b'{"a": tru}', b"[[[", b'{"a"', b'{"a":', b'{"a":1', b'{"a":1,', b'["abc', b'["\\x"]',
+              b"[1e999]", b'{"a":[1,{"b":"\\ud800"}]}', b"[1,]", b"{", b"[", b'{"k":[nul]}', b"[-]", b'{"a":1 "b"}', b"[1 2]",
+              b'{"a":1,"a":2}', b"[\x80]", b'["\xff"]', b"[1]]", b"{}}", b"1 1", b"", b"x", b'"abc', b"nul", b"1e999",
+              b"[/*", b'{"a":/', b"[1,/*c*/]"]
+AFTER = [b"2", b'"s"', b"null", b"true", b"-0.5", b"[1]", b"[]", b"{}", b'{"a":1}', b'{"a":[1,{"b":null}]}', b"[[[]]]",
+         b' [1, 2] ', b'{"k":"v","a":"b"}']
+
+
+def seq_op(docs):
+    return "s " + " ".join(vf.hexs(d) for d in docs)
+
+
+def gen_seqs(rng, count, maxdepth):
+    """sequences of 2..4 documents for ONE context: failures of every mutation class (the parser
+    state they leave behind: open lists/dicts, a pending key, a half-read string or number)
+    followed by valid documents, and valid documents followed by anything"""
+    out = []
+    while len(out) < count:
+        r = rng.below(10)
+        docs = []
+        if r < 3:
+            docs = [rng.choice(OPEN_FAILS), rng.choice(AFTER)]
+            if rng.chance(1, 2):
+                docs.append(rng.choice(OPEN_FAILS + AFTER))
+            tag = "reuse-directed"
+        else:
+            toks = gen_valid(rng, maxdepth)
+            ws = WS_RFC
+            n = 2 + rng.below(3)
+            for _ in range(n):
+                k = rng.below(10)
+                if k < 5:
+                    docs.append(mutate(rng, toks, ws)[1])
+                elif k < 6:
+                    doc = render(rng, toks, ws)
+                    docs.append(doc[:rng.below(len(doc) + 1)])
+                else:
+                    docs.append(render(rng, gen_valid(rng, min(maxdepth, 8)), ws))
+                if rng.chance(1, 2):
+                    toks = gen_valid(rng, min(maxdepth, 8))
+            tag = "reuse-random"
+        out.append((tag, docs))
+    return out
+
+
+def _judge_seq_chunk(args):
+    seqs, lines = args
+    bad = []
+    for i, (ds, l) in enumerate(zip(seqs, lines)):
+        j = c02_ref.judge_seq(ds, l)
+        if j is not None:
+            bad.append((i, j[0], j[1]))
+    return bad
+
+
+def shrink_seq(docs, pred):
+    """fewer documents first, then fewer bytes in each"""
+    docs = [bytes(d) for d in vf.ddmin(list(docs), lambda c: len(c) > 0 and pred(list(c)), budget=40)]
+    for i in range(len(docs)):
+        def p1(cand, i=i):
+            return pred(docs[:i] + [bytes(cand)] + docs[i + 1:])
+        docs[i] = bytes(vf.ddmin(list(docs[i]), p1, budget=80))
+    return docs
+
+
+def run_seqs(ck, hcmd, dcmd, tagged, label, pool, chunk=1500):
+    """C-tie + monitors over sequences of documents parsed on one context."""
+    chunks = list(vf.chunks(tagged, chunk))
+
+    def one(ch):
+        text = "".join(seq_op(ds) + "\n" for _, ds in ch)
+        cl, ml, err = ck.both(hcmd, dcmd, text, 1200)
+        return cl, ml
+    with ThreadPoolExecutor(NPROC) as ex:
+        res = list(ex.map(one, chunks))
+    judged = list(pool.map(_judge_seq_chunk, [([ds for _, ds in ch], cl[:len(ch)]) for ch, (cl, _) in zip(chunks, res)]))
+    hist = ck.cov.setdefault("reuse_histogram", {})
+    for ch, (cl, ml), bad in zip(chunks, res, judged):
+        ck.count(len(ch))
+        ck.cov["op_lines"] = ck.cov.get("op_lines", 0) + len(ch)
+        for (tag, ds), l in zip(ch, cl):
+            ck.distinct(tuple(ds))
+            g = l.split(" | ")[0].split(" ; ")
+            key = tag + ":" + "".join("A" if p.startswith("ok") else "r" for p in g)
+            hist[key] = hist.get(key, 0) + 1
+        if cl != ml and len([v for v in ck.violations if v.get("label", "").startswith("tie:reuse")]) < 2:
+            n = max(len(cl), len(ml))
+            for i in range(n):
+                a = cl[i] if i < len(cl) else "<missing>"
+                b = ml[i] if i < len(ml) else "<missing>"
+                if a != b:
+                    break
+            i = min(i, len(ch) - 1)
+
+            def still(cand):
+                return ck.fails(hcmd, dcmd, [seq_op(cand)]) is not None
+            docs = list(ch[i][1])
+            if still(docs):
+                docs = shrink_seq(docs, still)
+                ck.compare_cases(hcmd, dcmd, [[seq_op(docs)]], label="tie:reuse:" + label, shrink=False)
+            else:
+                ck.compare_cases(hcmd, dcmd, [[seq_op(ds)] for _, ds in ch], label="tie:reuse:" + label)
+        seen = set(v.get("class") for v in ck.violations)
+        for i, cls, msg in bad:
+            if cls in seen:
+                ck.cov["monitor_hits_not_minimised"] = ck.cov.get("monitor_hits_not_minimised", 0) + 1
+                continue
+            seen.add(cls)
+
+            def still(cand, cls=cls):
+                rc, out, _ = ck.run(hcmd, input_text=seq_op(cand) + "\n", timeout=60)
+                ls = out.split("\n")
+                j = c02_ref.judge_seq(cand, ls[0]) if ls and ls[0] else ("crash", "")
+                return j is not None and j[0] == cls
+            docs = list(ch[i][1])
+            small = shrink_seq(docs, still) if still(docs) else docs
+            rc, out, err = ck.run(hcmd, input_text=seq_op(small) + "\n", timeout=60)
+            impl = out.split("\n")[0] if out else "CRASH " + vf.san_summary(err)
+            j = c02_ref.judge_seq(small, impl) or (cls, msg)
+            ck.report("obs", {"label": "monitor:reuse:" + label, "ops": [seq_op(small)], "class": j[0],
+                              "monitor": j[1], "documents": [repr(d)[:120] for d in small], "impl": [impl[:600]]})
+
+
 def float_tokens(rng, n):
     out = [t.encode() for t in FLOATS + BADNUMS]
     for _ in range(n):
@@ -532,6 +656,10 @@ def float_tokens(rng, n):
             t[rng.below(len(t))] = rng.choice(b"0123456789+-.eE")
         out.append(bytes(t))
     return [t for t in out if t and all(c in b"0123456789+-.eE" for c in t) and len(t) < 100]
+
+
+def maxdepth_reuse(ck):
+    return ck.scale(16, 64)
 
 
 def timing(ck):
@@ -593,19 +721,31 @@ def run(ck):
                       "subnormals), each with 3 directed or random mutations (comment, trailing/extra comma, ill-formed "
                       "UTF-8, bad escape, lone surrogate, trailing garbage, raw control byte, number outside the grammar, "
                       "duplicate name, token delete/duplicate/swap, truncate, byte flip, byte insert), raw random bytes, all "
-                      "truncations of some documents; every document x 4 option sets x 4 pool sizes; distinct = distinct "
-                      "byte string")
+                      "truncations of some documents; every document x 4 option sets x 4 pool sizes; sequences of 2..4 "
+                      "documents on ONE context (every directed failure that leaves containers open / a key pending / a "
+                      "half-read token x every follow-up document; random histories of mutants, truncations and valid "
+                      "documents), each parse judged on its own; distinct = distinct byte string / sequence")
     rng = vf.SplitMix(ck.seed)
     intensify = not ck.proof_ok
     with ProcessPoolExecutor(NPROC) as pool:
-        corpus = []
+        corpus, corpus_seqs = [], []
+        unhex = lambda h: bytes.fromhex(h) if h != "-" else b""
         for c in vf.corpus_cases(PID):
             for l in c:
                 w = l.split()
-                if len(w) >= 2 and w[0] == "d":
-                    corpus.append(("corpus", bytes.fromhex(w[1]) if w[1] != "-" else b""))
+                if len(w) == 2 and w[0] == "d":
+                    corpus.append(("corpus", unhex(w[1])))
+                elif len(w) >= 2 and w[0] == "s":
+                    corpus_seqs.append(("corpus", [unhex(h) for h in w[1:]]))
         run_docs(ck, hcmd, dcmd, corpus, "corpus", pool)
+        run_seqs(ck, hcmd, dcmd, corpus_seqs, "corpus", pool)
         ck.cov["corpus_documents"] = len(corpus)
+        ck.cov["corpus_sequences"] = len(corpus_seqs)
+        # one context, several parses: every directed failure x every follow-up, then random histories
+        directed = [("reuse-directed", [a, b]) for a in OPEN_FAILS for b in AFTER]
+        directed += [("reuse-directed", [b, a, b2]) for a in OPEN_FAILS[:12] for b in AFTER[:4] for b2 in AFTER[:4]]
+        run_seqs(ck, hcmd, dcmd, directed, "directed", pool)
+        run_seqs(ck, hcmd, dcmd, gen_seqs(rng, ck.scale(8000, 250000), maxdepth_reuse(ck)), "random", pool)
         run_docs(ck, hcmd, dcmd, token_strings(ck.scale(4, 6)), "token-strings", pool, chunk=6000)
         run_docs(ck, hcmd, dcmd, table_probes(3 if (intensify or not ck.quick()) else 2), "table-probes", pool, chunk=6000)
         n = ck.scale(60000, 2000000) * (2 if intensify and ck.quick() else 1)
@@ -635,12 +775,12 @@ def replay(ck, path):
     rc = 0
     for op in r.get("ops", []):
         w = op.split()
-        if len(w) == 2 and w[0] == "d":
-            doc = bytes.fromhex(w[1]) if w[1] != "-" else b""
+        if len(w) >= 2 and w[0] in ("d", "s"):
+            docs = [bytes.fromhex(h) if h != "-" else b"" for h in w[1:]]
             _, out, err = ck.run(hcmd, input_text=op + "\n", timeout=60)
             impl = out.split("\n")[0] if out else "CRASH " + vf.san_summary(err)
-            j = c02_ref.judge(doc, impl)
-            vf.log("document: %r" % doc[:300])
+            j = c02_ref.judge(docs[0], impl) if w[0] == "d" else c02_ref.judge_seq(docs, impl)
+            vf.log("documents on one context: %r" % [d[:120] for d in docs])
             vf.log("monitor : %s" % ("ok" if j is None else "%s: %s" % j))
             if j is not None:
                 rc = 1
